@@ -2,7 +2,9 @@
 import struct
 from fractions import Fraction
 
-from .common import Check, iter_joined
+import os
+
+from .common import Check, iter_joined, build_ocaml, run_model, BUILD
 
 
 def kv(s):
@@ -72,9 +74,31 @@ def main(argv):
     ]
     cases = c.harness("c11")
     prop_fail, corr_fail, known = [], [], 0
-    n = nq = 0
+    n = nq = nmp = 0
     if cases:
         mout = c.model(cases)
+        mptree = {}
+        if mout:
+            # second pass: the bytes the REAL (msgpack v) produced are read by the extracted independent
+            # msgpack reader (mp_decode); the tree is compared below with the specification's Go tree
+            mpcases = os.path.join(BUILD, "C11.mpcases")
+            with open(cases) as f, open(mpcases, "w") as g:
+                for line in f:
+                    a = line.rstrip("\n").split("\t")
+                    if len(a) >= 3 and not a[1].startswith("Q"):
+                        h = kv(a[2]).get("mp", "ERR")
+                        if h != "ERR":
+                            g.write("%s\tM %s\t-\n" % (a[0], h))
+            rc, out, exe = build_ocaml("C11")
+            mpout = os.path.join(BUILD, "C11.mpmodel")
+            rc, err = run_model(exe, mpcases, mpout) if rc == 0 else (rc, out)
+            if rc != 0:
+                c.proof_break = c.proof_break or {"kind": "model-runner-failed (msgpack reader pass)", "log": str(err)[-2000:]}
+            else:
+                for line in open(mpout):
+                    b = line.rstrip("\n").split("\t")
+                    if len(b) >= 2:
+                        mptree[b[0]] = kv(b[1]).get("mptree")
         if mout:
             for cid, inp, impl, model, spec in iter_joined(cases, mout):
                 n += 1
@@ -108,6 +132,15 @@ def main(argv):
                             break
                     if bad is None and im.get("codec") != "1":
                         bad = ("Go tree read from the msgpack bytes equals the one read from the JSON text", im.get("codec"), "1")
+                # (iv) the msgpack bytes are well-formed msgpack denoting the same data (independent reader), for every
+                # value whose JSON text is as specified
+                if bad is None and sp.get("gtree", "ERR") != "ERR" and "gtok" in flags and "dupnames" not in flags:
+                    nmp += 1
+                    if im.get("mp", "ERR") == "ERR":
+                        bad = ("(msgpack v) fails", "ERR", "msgpack bytes")
+                    elif not same_by_value(mptree.get(cid), sp.get("gtree")):
+                        bad = ("Go tree read from the bytes of (msgpack v) by the independent msgpack reader (mp_decode)",
+                               mptree.get(cid), sp.get("gtree"))
                 if bad:
                     f = {"input": inp, "observable": bad[0], "implementation": bad[1], "specification": bad[2],
                          "json_text": jt, "flags": sp.get("flags", ""), "model": model}
@@ -125,14 +158,32 @@ def main(argv):
                 elif mo.get("parse") != im.get("std"):
                     corr_fail.append({"input": inp, "observable": "the extracted json_parse and encoding/json read the same text differently",
                                       "model": mo.get("parse"), "implementation": im.get("std"), "json_text": jt})
-                elif "dupnames" not in flags and "wf" in flags:
-                    for ob in ("unjson", "unmsgpack"):
-                        if im.get(ob) != mo.get("unjson"):
-                            corr_fail.append({"input": inp, "observable": "(%s ..) vs of_tree (json_parse (to_json v))" % ob,
-                                              "implementation": im.get(ob), "model": mo.get("unjson"), "json_text": jt})
-                            break
+                elif "wf" in flags:
+                    mism = False
+                    if "dupnames" not in flags:
+                        for ob in ("unjson", "unmsgpack"):
+                            if im.get(ob) != mo.get("unjson"):
+                                corr_fail.append({"input": inp, "observable": "(%s ..) vs of_tree (json_parse (to_json v))" % ob,
+                                                  "implementation": im.get(ob), "model": mo.get("unjson"), "json_text": jt})
+                                mism = True
+                                break
+                    # the route as the code is factored (JsonToGo / GoToMsgpack / MsgpackToGo / GoToSexp on Go trees).
+                    # Objects with two members of the same name stay excluded: the ugorji reader decodes the second
+                    # member INTO the value of the first ({"a":1, "a":"x"} fails, {"k":"s", "k":false} gives "false")
+                    if mism or "dupnames" in flags:
+                        pass
+                    elif im.get("mp") != mo.get("mp"):
+                        corr_fail.append({"input": inp, "observable": "bytes of (msgpack v) vs mp_bytes (go_of_tree (json_parse (to_json v)))",
+                                          "implementation": im.get("mp"), "model": mo.get("mp"), "json_text": jt})
+                    elif im.get("unmsgpack") != mo.get("unmp"):
+                        corr_fail.append({"input": inp, "observable": "(unmsgpack ..) vs sexp_of_go (mp_decode (mp_bytes ..))",
+                                          "implementation": im.get("unmsgpack"), "model": mo.get("unmp"), "json_text": jt})
+                    elif im.get("unjson") != mo.get("ungo"):
+                        corr_fail.append({"input": inp, "observable": "(unjson ..) vs sexp_of_go (go_of_tree (json_parse ..))",
+                                          "implementation": im.get("unjson"), "model": mo.get("ungo"), "json_text": jt})
             c.coverage["compared"] = n
             c.coverage["quote_cases_compared"] = nq
+            c.coverage["msgpack_documents_read_by_independent_reader"] = nmp
             c.coverage["traces_validated_against_impl"] = n
     # report: smallest failing inputs first, one per observable
     prop_fail.sort(key=lambda f: len(f["input"]))
